@@ -40,3 +40,23 @@ package utils
 //@   requires reader != nil
 //@   ensures [a_tree_or_an_error] result1 == nil ==> result0 != nil
 //@   ensures [unknown_format_is_an_error] format != 0 && format != 1 && format != 2 && format != 3 ==> result1 != nil
+
+// opens a local file, standard input or a remote resource (thin: a reader or an error)
+//@ func io/utils.GetReader
+//@   allocates iface, bufio.Reader
+//@   assigns nothing
+//@   ensures [a_reader_or_an_error] result2 == nil ==> result1 != nil && itag(result0) != 0
+
+// thin: the goroutine started by ReadMultiTrees is verified above (ReadMultiTrees$1); ReadTree = GetReader + ReadTreeReader
+//@ func io/utils.ReadMultiTrees
+//@   allocates chan, iface
+//@   assigns nothing
+//@   ensures [a_channel] result != nil
+//@ func io/utils.ReadTree
+//@   flag noframe
+//@   flag countcalls
+//@   allocates tree.Tree, tree.Node, tree.Edge, iface, bufio.Reader
+//@   assigns nothing
+//@   call io/utils.GetReader [the_file_the_caller_names] a0 == inputfile
+//@   call io/utils.ReadTreeReader [read_in_the_format_the_caller_names] a0 == r && a1 == format && err == nil
+//@   ensures [a_tree_or_an_error] result1 == nil ==> result0 != nil
